@@ -23,6 +23,7 @@ META = {
     'stubs': ['decimalfp.Decimal(x, precision) rounding contract (DataVolume only)'],
     'assumptions': ['reference value oracle: amount * own scale walk of unit.definition'],
 }
+META['bounds'].append('quantity.sum with a plain number as start (0, 0.0, Decimal(0), Fraction(0), False, 5)')
 
 CMP = [('lt', operator.lt), ('le', operator.le), ('gt', operator.gt), ('ge', operator.ge)]
 
